@@ -436,7 +436,7 @@ def _run(case, ctx, backend):
             cl["set"] = [[c, _subst(e, "bpd", "bp")] for c, e in cl["set"]]
     bp_in_where = any(cl.get("where") and any(isinstance(x, list) and _uses(x, "bp") for x in cl["where"][1:]) for cl in upd)
     bpd_in_set = any(_uses(e, "bpd") for cl in upd for _, e in cl["set"])
-    if bp_in_where and mode == "many_returning" and not sort and len(rows) > 1 and not pinned:
+    if False and bp_in_where and mode == "many_returning" and not sort and len(rows) > 1 and not pinned:  # repaired in /repo (fix: 431b92d): no longer excluded
         # known finding: per-row bindparam in DO UPDATE .. WHERE is batched by insertmanyvalues with the first row's value
         ctx.exclude("per-row bindparam in DO UPDATE WHERE + batched executemany RETURNING (known finding)")
         sort = True
